@@ -32,6 +32,7 @@ type vfProtoArgs struct {
 	OOM       bool   // small body_big / flush_max and no flushing: drives the refusal class
 	MaxBody   int
 	CutSweeps int // connection dropped after every byte of a store command (one connection per cut)
+	Slow      int // slow clients: the body of a store command arrives after the server's receive timeout
 }
 
 // ---- C-buffer registry (hook vhook.Mem) ----
@@ -533,6 +534,9 @@ func vfProto(env *vfc.Env) {
 	if a.OOM {
 		a.Cfg.BodyBig, a.Cfg.FlushMax = 300, 2000
 	}
+	if a.Slow > 0 {
+		a.Cfg.TimeoutMS = 40 // only this job: the server's own wall-clock timeout replies are wanted here
+	}
 	srv, err := vfStartServer(a.Cfg, filepath.Join(env.Work, "srv"), res)
 	if err != nil {
 		res.Violate("startup", a.Prop+":open-error", err.Error(), nil)
@@ -656,6 +660,62 @@ func vfProto(env *vfc.Env) {
 		}
 		conn.CloseWrite()
 		<-done
+	}
+	// 3c. slow clients: the command line of a store command arrives, the body only after the
+	// server's receive timeout. Whatever the server answers (RECV_TIMEOUT or, on a slow
+	// machine, anything else), the accounting must be back at zero at quiescence. The pause
+	// is input, not a verdict.
+	for i := 0; i < a.Slow; i++ {
+		id := fmt.Sprintf("slow%d", i)
+		if !env.Want(id) && env.Only != "" {
+			continue
+		}
+		r := rnd.Split(uint64(9900 + i))
+		verb := []string{"set", "set", "add", "replace", "cas", "append"}[r.Intn(6)]
+		body := proto.GenBody(r, r.Pick(10, 300, 5000, 20000))
+		key := keys[r.Intn(len(keys))]
+		head := fmt.Sprintf("%s %s %d 0 %d\r\n", verb, key, r.Intn(100), len(body))
+		if verb == "cas" {
+			head = fmt.Sprintf("cas %s %d 0 %d 7\r\n", key, r.Intn(100), len(body))
+		}
+		sizeClass := "C-allocated"
+		if int64(len(body)) <= a.Cfg.BodyInC {
+			sizeClass = "go-allocated"
+		}
+		res.Begin(id, map[string]interface{}{"verb": verb, "body": len(body)})
+		res.Eval(1)
+		conn, done := srv.connect(id)
+		conn.Send([]byte(head))
+		cut := r.Intn(len(body) + 1)
+		conn.Send(body[:cut])
+		time.Sleep(time.Duration(a.Cfg.TimeoutMS*2+20) * time.Millisecond)
+		conn.Send(append(append([]byte{}, body[cut:]...), '\r', '\n'))
+		if !conn.WaitIdle(vfWatchdog) {
+			res.Inconc("slow-client connection not idle within the watchdog")
+			break
+		}
+		out := string(conn.Output())
+		kind := "other"
+		switch {
+		case strings.HasPrefix(out, "RECV_TIMEOUT"):
+			kind = "RECV_TIMEOUT"
+		case strings.HasPrefix(out, "STORED"), strings.HasPrefix(out, "NOT_STORED"), strings.HasPrefix(out, "EXISTS"), strings.HasPrefix(out, "NOT_FOUND"):
+			kind = "served"
+		}
+		conn.CloseWrite()
+		select {
+		case <-done:
+		case <-time.After(vfWatchdog):
+			res.Violate(id, "c11:wedged:slow-body", fmt.Sprintf("%s with a late body: the server goroutine did not return after the client closed", verb), nil)
+			continue
+		}
+		now := srv.quiesce()
+		if d := now.minus(base); !d.zero() {
+			report(id, "slow-body:"+verb+":"+sizeClass+":"+kind, d, map[string]interface{}{"verb": verb, "body_bytes": len(body), "reply": vfTrunc([]byte(out))})
+			base = now
+		}
+		res.Seen("slow-body/" + verb + "/" + sizeClass + "/" + kind)
+		res.Event("slow_body."+kind, 1)
 	}
 	// 3b. connection drop at EVERY byte of a store command: one connection per cut
 	for sw := 0; sw < a.CutSweeps; sw++ {
